@@ -10,6 +10,15 @@ use serde::{Deserialize, Serialize};
 use serde_json::Value;
 
 pub fn spec(tier: Tier) -> RunSpec {
+    let mut s = spec0(tier);
+    // Server::process on a mock transport (whose read reports end of stream) returns within microseconds; a call that has not
+    // returned after 60 s never will - the worker that runs it would be lost for good
+    s.case_limit_s = 60;
+    s.hang_is_violation = true;
+    s
+}
+
+fn spec0(tier: Tier) -> RunSpec {
     super::base_spec(
         8,
         "section responses: the G-REQ campaign (valid and malformed requests, all nine methods, hostile Origin / Access-Control-Request-* / Range / Content-Type values with CR, LF, NUL, colons) on both entry points; \
